@@ -294,7 +294,8 @@ def check(prop: str, tier: str, batch_seed: int, repo: str, workers: int = 16,
                 # history (e.g. a cache poisoned by the run itself). The fresh-interpreter replay below is
                 # the authority; the trace is reported unminimised.
                 if ent["trace"].get("kind") == "cross-unresolved":
-                    raise HarnessError(f"violation {key} could not be resolved: {mini.get('note')}")
+                    unconfirmed.append(f"violation {key} could not be resolved: {mini.get('note')}")
+                    continue
                 print(f"[verif] note: {key} did not reproduce in its (used) worker; replaying the unminimised "
                       f"trace in a fresh interpreter", flush=True)
                 mini = {"trace": ent["trace"], "violation": ent["v"], "size_before": None, "size_after": None,
